@@ -53,6 +53,23 @@ class PairSystem(System):
         for (w, d) in ((1, 1), (2, 2), (3, 2)) if quick else ((1, 1), (2, 2), (3, 2), (2, 3), (3, 3)):
             for s in ("table", "fnv"):
                 cfgs.append(dict(kind="cms", width=w, depth_=d, strat=s, nkeys=3, depth=4 if quick else 5, seed=seed, cost=4000))
+        # scale-up ("corridor") configurations: larger arrays (60 .. 240 bytes; 128 .. 512 counters) whose keys together touch every
+        # byte, each operand built by "add the next key" only; and amounts at byte boundaries of a 32-bit counter
+        for n, p in ((50, 0.01), (100, 0.05), (200, 0.01)):
+            f = BloomFilter(n, p)
+            for s in ("cover", "fnv"):
+                cfgs.append(dict(kind="bloom", n=n, p=p, m=f.number_bits, k=f.number_hashes, strat=s, nkeys=8 if quick else 12,
+                                 corridor=True, depth=8 if quick else 12, seed=seed, cost=9000))
+        f = CountingBloomFilter(21, 0.05)
+        cfgs.append(dict(kind="cbf", n=21, p=0.05, m=f.number_bits, k=f.number_hashes, strat="cover", nkeys=6, corridor=True,
+                         depth=6, seed=seed, cost=6000))
+        f = CountingBloomFilter(3, 0.1)
+        cfgs.append(dict(kind="cbf", n=3, p=0.1, m=f.number_bits, k=f.number_hashes, strat="table", nkeys=2, depth=3, seed=seed,
+                         amounts=[255, 256, 65536, 1 << 24], cost=6000))
+        cfgs.append(dict(kind="cms", width=64, depth_=2, strat="edge", nkeys=4, depth=4, seed=seed, cost=6000))
+        cfgs.append(dict(kind="cms", width=128, depth_=4, strat="fnv", nkeys=6, corridor=True, depth=6, seed=seed, cost=6000))
+        cfgs.append(dict(kind="cms", width=2, depth_=2, strat="table", nkeys=2, depth=3, seed=seed, amounts=[255, 256, 65536, 1 << 24],
+                         cost=4000))
         # sketches with removals beyond what was added (net total can be 0 with non-zero counters)
         cfgs.append(dict(kind="cms", width=3, depth_=2, strat="fnv", nkeys=2, depth=4 if quick else 5, seed=seed, free_remove=True, cost=4000))
         cfgs.append(dict(kind="cms", width=2, depth_=2, strat="table", nkeys=2, depth=4 if quick else 5, seed=seed, free_remove=True, cost=4000))
@@ -63,6 +80,16 @@ class PairSystem(System):
 
     # ---- construction
     def _alpha(self, cfg):
+        if cfg.get("strat") == "edge":
+            # count-min keys on the last counter of a 64-counter block, the first one, and in between
+            w, d = cfg["width"], cfg["depth_"]
+            items = [("edge-a", [w - 1 + w * (i + 3) for i in range(d)]), ("edge-b", [0 + w * (i + 2) for i in range(d)]),
+                     ("edge-c", [w - 2 + w * (i + 5) for i in range(d)]), ("edge-d", [(w // 2) + w * (i + 1) for i in range(d)])]
+            return [k for k, _ in items][: cfg["nkeys"]], K.table_strategy(items)
+        if cfg.get("corridor"):
+            if cfg["kind"] == "cms":
+                return K.corridor_alphabet(cfg["strat"], cfg["width"], cfg["depth_"], cfg["seed"], cfg["nkeys"])
+            return K.corridor_alphabet(cfg["strat"], cfg["m"], cfg["k"], cfg["seed"], cfg["nkeys"])
         if cfg["kind"] == "cms":
             w, d = cfg["width"], cfg["depth_"]
             if cfg["strat"] == "table":
@@ -91,7 +118,16 @@ class PairSystem(System):
     def events(self, cfg, st):
         keys, _ = self._alpha(cfg)
         evs = []
-        amounts = (1,) if cfg["kind"] == "bloom" else (1, 2)
+        amounts = (1,) if cfg["kind"] == "bloom" else tuple(cfg.get("amounts", (1, 2)))
+        if cfg.get("corridor"):
+            # each operand grows by "add the next key" (A takes the even keys, B the odd ones, both may take the last)
+            for side in (0, 1):
+                true = st.model["ta" if side == 0 else "tb"]
+                mine = [i for i in range(len(keys)) if i % 2 == side or i == len(keys) - 1]
+                nxt = [i for i in mine if true[i] == 0]
+                if nxt:
+                    evs.append(("add", side, nxt[0], 1))
+            return evs
         for side in (0, 1):
             for i in range(len(keys)):
                 for n in amounts:
